@@ -400,6 +400,7 @@ package nutsdb
 //@   ensures idxMut == old(idxMut) + 1
 //@   ensures[C04] forall b string :: b != bucket ==> has(tx.db.BPTreeIdx, b) == old(has(tx.db.BPTreeIdx, b)) && tx.db.BPTreeIdx[b] == old(tx.db.BPTreeIdx[b])
 //@   ensures tx.db.opt.EntryIdxMode != HintBPTSparseIdxMode ==> has(tx.db.BPTreeIdx, bucket) && tx.db.BPTreeIdx[bucket] != nil
+//@   ensures[C15] old(treesOK(tx.db)) ==> treesOK(tx.db)
 //@   modifies entries(tx.db.BPTreeIdx), alltype(BPTree), alltype(Node), alltype(Record), idxMut
 //@   safety[C20] panics
 
@@ -458,7 +459,7 @@ package nutsdb
 //@   requires tx != nil && (tx.db != nil ==> dbOK(tx.db) && pendingOK(tx) && tx.ReservedStoreTxIDIdxes != nil)
 //@   requires tx.db != nil ==> (tx.writable ==> lockMode == 2) && (!tx.writable ==> lockMode == 1) && (len(tx.pendingWrites) > 0 ==> tx.writable)
 //@   requires tx.db != nil && tx.db.opt.SyncEnable ==> unsynced == 0
-//@   requires[C20] tx.db != nil ==> applicable(tx.db)
+//@   requires[C20] tx.db != nil ==> applicable(tx.db) && treesOK(tx.db)
 //@   requires tx.db != nil && tx.db.opt.EntryIdxMode == HintBPTSparseIdxMode ==> tx.db.ActiveBPTreeIdx != nil && tx.db.ActiveCommittedTxIdsIdx != nil && tx.db.bucketMetas != nil
 //@   ensures[C12,C20] old(tx.db) == nil ==> result == ErrDBClosed
 //@   ensures[C14] result == nil && old(tx.db) != nil ==> lockMode == 0 && tx.db == nil
@@ -466,6 +467,9 @@ package nutsdb
 //@   ensures[C11] result == nil && old(tx.db) != nil && old(tx.db.opt.SyncEnable) ==> unsynced == 0
 //@   ensures[C12] result != nil ==> idxMut == old(idxMut)
 //@   ensures[C12] result != nil && old(tx.db) != nil ==> old(tx.db).KeyCount == old(tx.db.KeyCount)
+//@   ensures tx.writable == old(tx.writable) && rewrites == old(rewrites) && removes == old(removes)
+//@   ensures[C15] forall d *DataFile :: old(allocated(d)) ==> d.rwManager == old(d.rwManager)
+//@   ensures[C15] old(tx.db) != nil ==> treesOK(old(tx.db)) && old(tx.db).isMerging == old(tx.db.isMerging)
 //@   modifies everything
 //@   safety[C20] panics
 //@   loops 1
@@ -477,6 +481,8 @@ package nutsdb
 //@        tx.pendingWrites[j].Meta.status == UnCommitted && tx.pendingWrites[j].Meta.txID == tx.id
 //@   loop 1: invariant pendingDistinct(tx)
 //@   loop 1: invariant[C20] applicable(tx.db)
+//@   loop 1: invariant[C15] treesOK(tx.db)
+//@   loop 1: invariant[C15] forall d *DataFile :: old(allocated(d)) ==> d.rwManager == old(d.rwManager)
 //@   loop 1: invariant[C20] forall k int :: 0 <= k && k < len(tx.pendingWrites) ==> tx.pendingWrites[k] != nil && tx.pendingWrites[k].Meta != nil && recShape(tx.pendingWrites[k])
 //@   loop 1: invariant[C11] tx.db.opt.SyncEnable ==> unsynced == 0
 //@   loop 1: invariant[C12] tx.db.KeyCount == old(tx.db.KeyCount)
@@ -1605,3 +1611,132 @@ package nutsdb
 //@   ensures[C02] err != nil ==> entries == nil
 //@   modifies lastReadOff, elems(tx.db.BPTreeRootIdxes)
 //@   safety[C20] panics
+
+// ---------------------------------------------------------------------------
+// Transaction life cycle and lock typestate (C12, C14, C17): ghost lockMode (0 none, 1 read, 2 write)
+//@ extern github.com/bwmarrin/snowflake.NewNode (node) (n, err)
+//@   ensures err == nil ==> n != nil
+//@   modifies nothing
+//@ extern github.com/bwmarrin/snowflake.Node.Generate (n) (id)
+//@   modifies nothing
+//@ extern github.com/bwmarrin/snowflake.ID.Int64 (f) (r)
+//@   modifies nothing
+//@   pure
+//@ func Tx.getTxID
+//@   requires tx != nil && tx.db != nil
+//@   modifies nothing
+//@   safety[C20] panics
+//@ func newTx
+//@   requires db != nil
+//@   ensures[C14] err == nil ==> fresh(tx) && tx.db == db && tx.writable == writable && len(tx.pendingWrites) == 0 && tx.ReservedStoreTxIDIdxes != nil && fresh(tx.pendingWrites)
+//@   ensures err != nil ==> tx == nil
+//@   modifies nothing
+//@   safety[C20] panics
+//@ func Tx.lock
+//@   requires tx != nil && tx.db != nil
+//@   ensures[C14] (tx.writable ==> lockMode == 2) && (!tx.writable ==> lockMode == 1)
+//@   modifies lockMode
+//@   safety[C20] panics
+//@ func Tx.unlock
+//@   requires tx != nil && tx.db != nil && (tx.writable ==> lockMode == 2) && (!tx.writable ==> lockMode == 1)
+//@   ensures[C14] lockMode == 0
+//@   modifies lockMode
+//@   safety[C20] panics
+//@ func DB.Begin
+//@   requires db != nil && lockMode == 0
+//@   ensures[C14] err == nil ==> tx != nil && tx.db == db && tx.writable == writable && (writable ==> lockMode == 2) && (!writable ==> lockMode == 1) && !db.closed
+//@   ensures[C14] err == nil ==> len(tx.pendingWrites) == 0 && pendingOK(tx) && tx.ReservedStoreTxIDIdxes != nil && fresh(tx) && fresh(tx.pendingWrites)
+//@   ensures[C12,C14] err != nil ==> tx == nil && lockMode == 0
+//@   ensures[C20] db.closed ==> err != nil
+//@   modifies lockMode
+//@   safety[C20] panics
+//@ func Tx.Rollback
+//@   requires tx != nil && (tx.db != nil ==> (tx.writable ==> lockMode == 2) && (!tx.writable ==> lockMode == 1))
+//@   ensures[C12,C14] old(tx.db) == nil ==> result == ErrDBClosed && lockMode == old(lockMode)
+//@   ensures[C12,C14] old(tx.db) != nil ==> result == nil && lockMode == 0 && tx.db == nil && tx.pendingWrites == nil
+//@   modifies[C12] tx.db, tx.pendingWrites, lockMode
+//@   safety[C20] panics
+//@ func DB.Close
+//@   requires db != nil && lockMode == 0 && (!db.closed ==> db.ActiveFile != nil && db.ActiveFile.rwManager != nil)
+//@   ensures[C14] lockMode == 0
+//@   ensures[C20] old(db.closed) ==> result == ErrDBClosed
+//@   ensures !old(db.closed) ==> result == nil && db.closed
+//@   modifies db.closed, db.ActiveFile, db.BPTreeIdx, lockMode
+//@   safety[C20] panics
+
+// ---------------------------------------------------------------------------
+// Merge (C15, C10, C11, C17, C20). Ghost counters: rewrites (successful returns of reWriteData), removes (os.Remove calls).
+//@ spec ghost rewrites int
+//@ spec ghost removes int
+//@ extern os.Remove (name) (err)
+//@   ensures removes == old(removes) + 1 && fsMut == old(fsMut) + 1
+//@   modifies removes, fsMut
+//@ spec func deadFlag(f uint16) bool = f == DataDeleteFlag || f == DataRPopFlag || f == DataLPopFlag || f == DataLRemFlag || f == DataLTrimFlag || f == DataZRemFlag ||
+//@        f == DataZRemRangeByRankFlag || f == DataZPopMaxFlag || f == DataZPopMinFlag
+
+//@ func DB.isFilterEntry
+//@   requires entry != nil && entry.Meta != nil
+//@   ensures[C15] result == (deadFlag(entry.Meta.Flag) || expiredAt(entry.Meta.TTL, entry.Meta.timestamp, clock))
+//@   modifies nothing
+//@   safety[C20] panics
+//@   pure
+
+//@ func DB.getRecordFromKey
+//@   requires db != nil && treesOK(db)
+//@   ensures[C15] err != nil ==> record == nil
+//@   ensures[C15] record != nil ==> has(db.BPTreeIdx, string(bucket)) && record.H != nil && record.H.meta != nil
+//@   modifies nothing
+//@   safety[C20] panics
+
+//@ func DB.getPendingMergeEntries
+//@   requires db != nil && entry != nil && entry.Meta != nil
+//@   requires entsOK(pendingMergeEntries)
+//@   ensures[C15] entsOK(result) && len(result) >= len(pendingMergeEntries) && len(result) <= len(pendingMergeEntries) + 1
+//@   ensures[C15] forall k int :: 0 <= k && k < len(pendingMergeEntries) ==> result[k] == pendingMergeEntries[k]
+//@   ensures[C15] len(result) == len(pendingMergeEntries) + 1 ==> result[len(pendingMergeEntries)] == entry
+//@   modifies elems(pendingMergeEntries)
+//@   safety[C20] panics
+//@   loops 1
+//@   loop 1: modifies nothing
+//@   loop 1: invariant -1 <= rangeindex && rangeindex < len(items) && entry == old(entry) && pendingMergeEntries == old(pendingMergeEntries)
+//@   branch 6: iff[C15] r.H.meta.Flag == DataSetFlag
+
+//@ func DB.reWriteData
+//@   requires db != nil && lockMode == 0 && entsOK(pendingMergeEntries) && treesOK(db)
+//@   at entry: assume !db.closed ==> dbOK(db) && applicable(db) && db.opt.EntryIdxMode != HintBPTSparseIdxMode && (db.opt.SyncEnable ==> unsynced == 0)
+//@   at entry: assume forall k int :: 0 <= k && k < len(pendingMergeEntries) ==> recShape(pendingMergeEntries[k])
+//@   at return #1: bump rewrites
+//@   at return #6: bump rewrites
+//@   ensures[C15] result == nil ==> rewrites == old(rewrites) + 1
+//@   ensures[C15] result != nil ==> rewrites == old(rewrites) && !db.isMerging
+//@   ensures removes == old(removes) && treesOK(db) && (forall d *DataFile :: old(allocated(d)) ==> d.rwManager == old(d.rwManager))
+//@   ensures result == nil ==> db.isMerging == old(db.isMerging)
+//@   ensures[C14,C15,C17] lockMode == 0
+//@   modifies everything
+//@   safety[C20] panics
+//@   loops 1
+//@   loop 1: invariant -1 <= rangeindex && rangeindex < len(pendingMergeEntries) && db == old(db) && tx != nil && tx.db == db && tx.writable && lockMode == 2 && pendingOK(tx) &&
+//@        pendingMergeEntries == old(pendingMergeEntries) && entsOK(pendingMergeEntries) && tx.ReservedStoreTxIDIdxes != nil && rewrites == old(rewrites) && fresh(tx.pendingWrites)
+//@   loop 1: invariant dbOK(db) && applicable(db) && db.opt.EntryIdxMode != HintBPTSparseIdxMode && (db.opt.SyncEnable ==> unsynced == 0) && treesOK(db) && removes == old(removes) && db.isMerging == old(db.isMerging)
+//@   loop 1: invariant forall d *DataFile :: old(allocated(d)) ==> d.rwManager == old(d.rwManager)
+//@   loop 1: invariant forall k int :: 0 <= k && k < len(pendingMergeEntries) ==> recShape(pendingMergeEntries[k])
+//@   at call put: assert[C15] $arg1 == string(e.Meta.bucket) && $arg2 == e.Key && $arg3 == e.Value && $arg4 == e.Meta.TTL && $arg5 == e.Meta.Flag && $arg6 == e.Meta.timestamp && $arg7 == e.Meta.ds
+
+//@ func DB.Merge
+//@   requires db != nil && lockMode == 0 && treesOK(db)
+//@   ensures[C14,C15,C17] lockMode == 0
+//@   ensures[C15] db.isMerging ==> old(db.isMerging)
+//@   modifies everything
+//@   safety[C20] panics
+//@   loops 2
+//@   loop 1: invariant -1 <= rangeindex && rangeindex < len(pendingMergeFIds) && db == old(db) && lockMode == 0 && rewrites - removes == old(rewrites - removes) && treesOK(db)
+//@   loop 2: invariant off >= 0 && db == old(db) && f != nil && f.rwManager != nil && lockMode == 0 && entsOK(pendingMergeEntries) &&
+//@        pendingMergeFId == pendingMergeFIds[rangeindex] && 0 <= rangeindex && rangeindex < len(pendingMergeFIds) && rewrites - removes == old(rewrites - removes) && treesOK(db)
+//@   at call Remove: assert[C10,C11,C15] rewrites - removes == old(rewrites - removes) + 1
+//@   branch 8: iff[C15] r != nil
+//@   branch 9: iff[C15] skipEntry
+//@   branch 10: iff[C15] r.H.fileID > pendingMergeFId
+//@   branch 11: iff[C15] r.H.fileID == pendingMergeFId
+//@   branch 12: iff[C15] r.H.dataPos > off
+//@   at call getPendingMergeEntries: assert[C15] !deadFlag(entry.Meta.Flag) && !expiredAt(entry.Meta.TTL, entry.Meta.timestamp, clock)
+//@   at call getPendingMergeEntries: assert[C15] entry.Meta.ds == DataStructureBPTree ==> r != nil && r.H.fileID == pendingMergeFId && r.H.dataPos == off
